@@ -245,3 +245,14 @@ package stanza
 //@     after: se = ret0
 //@   callsite mellium.im/xmlstream.Wrap#1
 //@     assert[C13] arg0 == payload && arg1 == se
+
+// C13: the stanza error decoder stores what was decoded, unaltered: type and by
+// as decoded, and for every language the data of the last non-empty <text/> of
+// that language, byte for byte (nothing is trimmed or rewritten; empty texts
+// are skipped, as the encoder skips them).
+//@ func (*Error).UnmarshalXML
+//@   ensures[C13] result == nil ==> se.Type == decoded.Type && se.By == decoded.By
+//@   ensures[C13] result == nil ==> forall k int :: 0 <= k && k < len(decoded.Text) && decoded.Text[k].Data != "" && (forall j int :: k < j && j < len(decoded.Text) ==> decoded.Text[j].Lang != decoded.Text[k].Lang || decoded.Text[j].Data == "") ==> has(se.Text, decoded.Text[k].Lang) && se.Text[decoded.Text[k].Lang] == decoded.Text[k].Data
+//@   loop 2
+//@     invariant[C13] se.Type == decoded.Type && se.By == decoded.By && rangeindex < len(decoded.Text)
+//@     invariant[C13] forall k int :: 0 <= k && k <= rangeindex && decoded.Text[k].Data != "" && (forall j int :: k < j && j <= rangeindex ==> decoded.Text[j].Lang != decoded.Text[k].Lang || decoded.Text[j].Data == "") ==> has(se.Text, decoded.Text[k].Lang) && se.Text[decoded.Text[k].Lang] == decoded.Text[k].Data
